@@ -210,5 +210,5 @@ def run(ctx, report):
     _own_run(ctx, report)
     from common import Only
     from rules import c01
-    c01.run(ctx, Only(report, {"NOLAUNDER": "NOLAUNDER"}))
+    c01._own_run(ctx, Only(report, {"NOLAUNDER": "NOLAUNDER"}))
 
